@@ -138,6 +138,7 @@ type FnCtx struct {
 	stringsSeen  map[string]bool
 	inputTerms   []inputTerm
 	retSite      string
+	unroll       int
 	baseElem     map[string]types.Type
 	baseKeySort  map[string]string
 	recordBases  map[string]string
@@ -242,24 +243,9 @@ func (c *FnCtx) closureAxiom(arr, base, al string) string {
 	if !ok {
 		return ""
 	}
-	switch t.Underlying().(type) {
-	case *types.Pointer, *types.Map, *types.Slice, *types.Interface:
-	default:
+	inv := func(term string) string { return c.typeInvAl(al, term, t, 0) }
+	if inv("x") == "true" {
 		return ""
-	}
-	inv := func(term string) string {
-		switch t.Underlying().(type) {
-		case *types.Pointer, *types.Map:
-			return or(eq(term, "0"), and("(> "+term+" 0)", sel(al, term)))
-		case *types.Slice:
-			b := "(sbase " + term + ")"
-			return and("(>= (soff "+term+") 0)", "(>= (slen "+term+") 0)", "(<= (slen "+term+") (scap "+term+"))",
-				or(and(eq(b, "0"), eq("(scap "+term+")", "0")), and("(> "+b+" 0)", sel(al, b))))
-		case *types.Interface:
-			return or(eq(term, "inil"), and("((_ is ibox) "+term+")", or(eq("(iref "+term+")", "0"), and("(> (iref "+term+") 0)", sel(al, "(iref "+term+")"))),
-				or(eq("(sbase (isl "+term+"))", "0"), sel(al, "(sbase (isl "+term+"))"))))
-		}
-		return "true"
 	}
 	switch {
 	case strings.HasPrefix(base, "F!"), strings.HasPrefix(base, "C!"):
@@ -337,6 +323,9 @@ func (c *FnCtx) zero(t types.Type) string {
 	if _, ok := isSetType(t); ok {
 		return "((as const " + c.tt.sortOf(t) + ") false)"
 	}
+	if isBufferType(t) {
+		return `""`
+	}
 	switch u := t.Underlying().(type) {
 	case *types.Basic:
 		switch {
@@ -372,11 +361,29 @@ func (c *FnCtx) zero(t types.Type) string {
 
 // typeInv: facts known about any value of Go type t (in state st).
 func (c *FnCtx) typeInv(st *State, term string, t types.Type, depth int) string {
+	return c.typeInvAl("", term, t, depth, st)
+}
+
+// typeInvAl is typeInv with respect to an explicit alloc term (or the state's current one).
+func (c *FnCtx) typeInvAl(al string, term string, t types.Type, depth int, sts ...*State) string {
+	var st *State
+	if len(sts) > 0 {
+		st = sts[0]
+	}
+	alloc := func() string {
+		if al != "" {
+			return al
+		}
+		return c.alloc(st)
+	}
 	t = types.Unalias(t)
 	if _, ok := isSetType(t); ok {
 		return "true"
 	}
 	if _, ok := isSeqType(t); ok {
+		return "true"
+	}
+	if isBufferType(t) {
 		return "true"
 	}
 	switch u := t.Underlying().(type) {
@@ -390,11 +397,11 @@ func (c *FnCtx) typeInv(st *State, term string, t types.Type, depth int) string 
 		}
 		return "true"
 	case *types.Pointer, *types.Map:
-		return or(eq(term, "0"), and("(> "+term+" 0)", sel(c.alloc(st), term)))
+		return or(eq(term, "0"), and("(> "+term+" 0)", sel(alloc(), term)))
 	case *types.Slice:
 		b := "(sbase " + term + ")"
 		return and("(>= (soff "+term+") 0)", "(>= (slen "+term+") 0)", "(<= (slen "+term+") (scap "+term+"))", "(<= (+ (soff "+term+") (scap "+term+")) 1152921504606846976)",
-			or(and(eq(b, "0"), eq("(scap "+term+")", "0"), eq("(soff "+term+")", "0")), and("(> "+b+" 0)", sel(c.alloc(st), b))))
+			or(and(eq(b, "0"), eq("(scap "+term+")", "0"), eq("(soff "+term+")", "0")), and("(> "+b+" 0)", sel(alloc(), b))))
 	case *types.Struct:
 		if depth > 3 {
 			return "true"
@@ -402,11 +409,12 @@ func (c *FnCtx) typeInv(st *State, term string, t types.Type, depth int) string 
 		var fs []string
 		for i := 0; i < u.NumFields(); i++ {
 			f := u.Field(i)
-			fs = append(fs, c.typeInv(st, "("+c.tt.fieldAcc(t, f.Name())+" "+term+")", f.Type(), depth+1))
+			fs = append(fs, c.typeInvAl(al, "("+c.tt.fieldAcc(t, f.Name())+" "+term+")", f.Type(), depth+1, st))
 		}
 		return and(fs...)
 	case *types.Interface:
-		return or(eq(term, "inil"), and("((_ is ibox) "+term+")", "(>= (iref "+term+") 0)", or(eq("(iref "+term+")", "0"), sel(c.alloc(st), "(iref "+term+")"))))
+		return or(eq(term, "inil"), and("((_ is ibox) "+term+")", "(>= (iref "+term+") 0)", or(eq("(iref "+term+")", "0"), sel(alloc(), "(iref "+term+")")),
+			or(eq("(sbase (isl "+term+"))", "0"), sel(alloc(), "(sbase (isl "+term+"))"))))
 	}
 	return "true"
 }
